@@ -9,6 +9,7 @@ import (
 	"sort"
 	"strconv"
 	"strings"
+	"sync"
 	"testing"
 	"time"
 
@@ -55,6 +56,10 @@ type UploadCase struct {
 	// SlowPlainUS: every downstream call without files is answered after this delay (a slow service), so that an
 	// operation whose file is read by a child step reads it after the other operations of the batch are done
 	SlowPlainUS int `json:"slow_plain_us,omitempty"`
+	// Fault: the first downstream call that carries files is answered with status 504 ("status504") or with its
+	// normal data plus an error ("errors-with-data"); then the claims are those of C06/C09/C10 for the upload path:
+	// nothing is delivered twice, the failure reaches the client
+	Fault string `json:"fault,omitempty"`
 }
 
 func uploadWorld() *world.World {
@@ -153,6 +158,28 @@ func checkC19(c *UploadCase) (*ev.Failure, string) {
 			return nil
 		}
 	}
+	if c.Fault != "" {
+		var fmu sync.Mutex
+		faulted := false
+		net.Fault = func(callIdx int, url string, reqs []*fake.Received, normal []map[string]interface{}) *fake.FaultResponse {
+			fmu.Lock()
+			defer fmu.Unlock()
+			if faulted || len(reqs) == 0 || !reqs[0].Multipart {
+				return nil
+			}
+			faulted = true
+			if c.Fault == "status504" {
+				return &fake.FaultResponse{Status: 504, Body: []byte("gateway timeout")}
+			}
+			if c.Fault == "redirect308" {
+				// the service moved: the client stack re-sends the request, body included, to the new location
+				return &fake.FaultResponse{Status: 308, Body: []byte("moved"), Location: url}
+			}
+			el := map[string]interface{}{"data": normal[0]["data"], "errors": []interface{}{map[string]interface{}{"message": "upload refused by the scanner"}}}
+			b, _ := json.Marshal(el)
+			return &fake.FaultResponse{Body: b}
+		}
+	}
 	var opsJSON []byte
 	if c.Batch {
 		opsJSON, _ = json.Marshal(c.Ops)
@@ -168,7 +195,15 @@ func checkC19(c *UploadCase) (*ev.Failure, string) {
 	}
 	mapJSON, _ := json.Marshal(fm)
 	body, ct := buildMultipart([][2]string{{"operations", string(opsJSON)}, {"map", string(mapJSON)}}, files)
-	resp := gwx.Post(gw, body, ct, 120*time.Second)
+	limit := 120 * time.Second
+	for _, f := range c.Files {
+		if f.Size > 16<<20 {
+			// several operations copying a file of 33-40 MiB, 16 such cases at a time under the race detector: minutes, not
+			// seconds, on a busy machine (a request that hangs still never returns)
+			limit = 900 * time.Second
+		}
+	}
+	resp := gwx.Post(gw, body, ct, limit)
 	if resp.TimedOut {
 		return ev.Failf("hang", "no response"), ""
 	}
@@ -197,6 +232,30 @@ func checkC19(c *UploadCase) (*ev.Failure, string) {
 			return ev.Failf("envelope", "%v", derr), ""
 		}
 		results = []*gwx.GQLResponse{d}
+	}
+	if c.Fault != "" && c.Fault != "redirect308" {
+		seen := map[string]int{}
+		for _, r := range net.Snapshot() {
+			if strings.HasPrefix(strings.TrimSpace(r.Query), "mutation") {
+				k := r.Service + "\x00" + r.Query
+				seen[k]++
+				if seen[k] > 1 {
+					return ev.Failf("delivered-twice", "with the file-carrying call answered by %s, service %s received the same mutation sub-request %d times:\n%s", c.Fault, r.Service, seen[k], trunc(r.Query, 200)), ""
+				}
+			}
+		}
+		any := false
+		for _, res := range results {
+			for _, e := range res.Errors {
+				if c.Fault == "status504" || strings.Contains(fmt.Sprint(e["message"]), "upload refused by the scanner") {
+					any = true
+				}
+			}
+		}
+		if !any {
+			return ev.Failf("masked:"+c.Fault, "the file-carrying call was answered by %s but no operation of the request reports it: %s", c.Fault, trunc(string(resp.Body), 400)), ""
+		}
+		return nil, "fault:" + c.Fault
 	}
 	// reference: the same operations with every file slot holding the marker the fakes use
 	union, _ := c.World.UnionSchema()
@@ -552,7 +611,7 @@ func c19Gates(labels []string, c *UploadCase) []string {
 
 func TestC19(t *testing.T) {
 	rec := ev.Get("C19")
-	rec.Rule = "well-formed GraphQL multipart requests (single and batched 1..3 operations) against a two-service world whose mutations take Upload at top level, in lists, inside input objects (also in a list inside an object and two levels deep), the list or input object either a whole variable or a literal with Upload variables inside it; 1..3 root fields per operation over both services, selections on the returned entity that need child steps of which some take an Upload argument themselves (a child step with a file next to child steps without), a variable possibly used by two fields/services, one file attached at 1..3 paths, parts declared as application/octet-stream, image/png or text/plain, file names with quotes/unicode/spaces, contents 0..64 KiB; built by the harness's own encoder. Oracle: response equals the reference executor; every service whose sub-request declares the variable receives a multipart request in which the same path refers to a part with the same file name and bytes; services that do not use the variable receive plain JSON and no file; non-trivial = a file below an object or list level, or used by 2 services, or one file at >=2 paths; distinct by hash(case)"
+	rec.Rule = "well-formed GraphQL multipart requests (single and batched 1..3 operations) against a two-service world whose mutations take Upload at top level, in lists, inside input objects (also in a list inside an object and two levels deep), the list or input object either a whole variable or a literal with Upload variables inside it; 1..3 root fields per operation over both services, selections on the returned entity that need child steps of which some take an Upload argument themselves (a child step with a file next to child steps without), a variable possibly used by two fields/services, one file attached at 1..3 paths, parts declared as application/octet-stream, image/png or text/plain, file names with quotes/unicode/spaces, contents 0..64 KiB; built by the harness's own encoder; in an eighth of the cases the first file-carrying downstream call is answered with 504 or with data plus an error (then: no mutation sub-request arrives twice, the failure is reported) or with a 308 redirect to the same url (then everything is as without it). Oracle: response equals the reference executor; every service whose sub-request declares the variable receives a multipart request in which the same path refers to a part with the same file name and bytes; services that do not use the variable receive plain JSON and no file; non-trivial = a file below an object or list level, or used by 2 services, or one file at >=2 paths; distinct by hash(case)"
 	defer census.dump("C19")
 	rapid.Check(t, func(t *rapid.T) {
 		c, labels := genUploadCase(t)
@@ -565,6 +624,10 @@ func TestC19(t *testing.T) {
 				rec.Exclude(g)
 				return
 			}
+		}
+		if rapid.IntRange(0, 7).Draw(t, "uploadfault") == 0 {
+			c.Fault = rapid.SampledFrom([]string{"status504", "errors-with-data", "redirect308"}).Draw(t, "uploadfaultkind")
+			labels = append(labels, "uploadPathFault:"+c.Fault)
 		}
 		ev.Current("C19", c)
 		nt := false
